@@ -130,12 +130,8 @@ func runC19(args []string) int {
 			if ok, why := c19Equal(a, b); !ok {
 				c := map[string]any{"content": content, "strict": a, "relaxed": b, "class": class}
 				what := "strict-valid file: relaxed mode yields different rules than strict mode: " + why
-				switch {
-				case hasTagKindMismatch(lastDocs):
-					rep.failKnown(fmt.Sprint(id), what, c, "C19-tag-kind")
-				default:
-					rep.fail(fmt.Sprint(id), what, c)
-				}
+				// (the tag-kind class is repaired by b22de24 + 4a0d172: no known-finding class is left, every difference is a violation)
+				rep.fail(fmt.Sprint(id), what, c)
 			} else if len(a) > 0 && len(rep.Samples) < 2 {
 				rep.sample(map[string]any{"kind": "strict-valid", "content": content, "rules": a})
 			}
